@@ -118,6 +118,10 @@ def incremental_driver(cfg, T):
         obs = observations(names, T + 1)
         pre = obs[T:]
         obs = obs[:T]
+        if run.choose(2, 'extra-unexplained-feature', None, 0):
+            # the observation has more keys than the explained feature names (explaining a subset of the inputs)
+            obs = [({**x, 'zz_extra': F(1000 + i)}, y) for i, (x, y) in enumerate(obs)]
+            pre = [({**x, 'zz_extra': F(2000 + i)}, y) for i, (x, y) in enumerate(pre)]
         prefilled = []
         if run.choose(2, 'warm-start-storage', None, 0):
             # the storage is filled through the public update_storage before the first explain_one
